@@ -432,6 +432,66 @@ fn failing_and_slow_device(rep: &mut Report) {
             }
         }
     }
+    // (a0) after every work() call the file holds everything consumed so far,
+    // for small and for large pieces (a BufWriter passes pieces of 8 KiB and more
+    // straight through and buffers the rest).
+    {
+        rep.eval();
+        let dir = tempfile::tempdir().expect("tempdir");
+        // packet sink: one record per call
+        let ppath = dir.path().join("records.txt");
+        let (pw, pr) = new_nocopy_stream::<String>();
+        if let Ok(mut psink) = NoCopyFileSink::new(pr, &ppath, Mode::Overwrite) {
+            let mut want = 0usize;
+            for len in [1usize, 100, 8190, 8191, 8192, 8193, 20_000, 3, 65_536, 7] {
+                let rec: String = (0..len).map(|i| (b'a' + (i % 26) as u8) as char).collect();
+                pw.push(rec, &[]);
+                let r = catch(|| psink.work().map(|_| ()).map_err(|e| format!("{e}")));
+                want += len + 1;
+                let on_disk = std::fs::metadata(&ppath).map(|m| m.len() as usize).unwrap_or(0);
+                rep.count("per_call_on_disk_checks", 1);
+                if !matches!(r, Ok(Ok(()))) {
+                    rep.violation("C17|per-call|work-failed", format!("NoCopyFileSink::work: {r:?}"), json!({"part": "per-call", "sink": "packet", "len": len}));
+                    break;
+                }
+                if on_disk != want {
+                    rep.violation(
+                        "C17|per-call|packet|consumed-but-not-in-the-file-when-work-returned",
+                        format!("after the work() call that took a record of {len} bytes the file holds {on_disk} bytes, the records consumed so far serialise to {want}"),
+                        json!({"part": "per-call", "sink": "packet", "len": len}),
+                    );
+                    break;
+                }
+            }
+        }
+        // sample sink
+        let spath = dir.path().join("samples.bin");
+        let (sw, sr) = new_stream::<u8>();
+        if let Ok(mut ssink) = FileSink::new(sr, &spath, Mode::Overwrite) {
+            let mut want = 0usize;
+            for len in [1usize, 100, 8191, 8192, 8193, 50_000, 5] {
+                {
+                    let mut wb = sw.write_buf().unwrap();
+                    for b in wb.slice()[..len].iter_mut() {
+                        *b = 0x5a;
+                    }
+                    wb.produce(len, &[]);
+                }
+                let r = catch(|| ssink.work().map(|_| ()).map_err(|e| format!("{e}")));
+                want += len;
+                let on_disk = std::fs::metadata(&spath).map(|m| m.len() as usize).unwrap_or(0);
+                rep.count("per_call_on_disk_checks", 1);
+                if !matches!(r, Ok(Ok(()))) || on_disk != want {
+                    rep.violation(
+                        "C17|per-call|copy|consumed-but-not-in-the-file-when-work-returned",
+                        format!("after the work() call that took {len} samples ({r:?}) the file holds {on_disk} bytes, consumed so far {want}"),
+                        json!({"part": "per-call", "sink": "copy", "len": len}),
+                    );
+                    break;
+                }
+            }
+        }
+    }
     // (a1) the kernel accepts only part of a write (file size limit reached in
     // the middle of it; SIGXFSZ ignored so the following write fails with EFBIG):
     // whatever work() answers, it must not have consumed more than the file holds.
@@ -632,7 +692,7 @@ fn failing_and_slow_device(rep: &mut Report) {
 
 pub fn main(opts: &Opts) -> Report {
     let mut rep = Report::new("C17");
-    rep.rule = "modes: {Create, Overwrite, Append} x {absent, empty, non-empty, directory, unwritable} x {FileSink, NoCopyFileSink}, each case in a child process running as uid 65534 (root ignores mode bits), compared with the documented table (exhaustive, 30 cases); crash points: a child streams unique samples/records through a one-page stream into the sink from a feeder thread while the main thread loops work() and reports, after every return, the cumulative count consumed by returned calls with one write(2); the parent SIGKILLs after a seeded number of reports plus a seeded delay; the file must be a prefix of the serialised stream holding at least the last acknowledged count; a sink on /dev/full (every write fails) must consume nothing, a sink whose write is cut short by the file size limit must not have consumed more than the file holds, two sinks appending alternately to one file must leave every piece in call order, and a sink on a FIFO that accepts one pipe buffer and then stalls must not have acknowledged more than the device accepted while its work() call is blocked; distinct = (acknowledged, bytes on disk) pairs".into();
+    rep.rule = "modes: {Create, Overwrite, Append} x {absent, empty, non-empty, directory, unwritable} x {FileSink, NoCopyFileSink}, each case in a child process running as uid 65534 (root ignores mode bits), compared with the documented table (exhaustive, 30 cases); crash points: a child streams unique samples/records through a one-page stream into the sink from a feeder thread while the main thread loops work() and reports, after every return, the cumulative count consumed by returned calls with one write(2); the parent SIGKILLs after a seeded number of reports plus a seeded delay; the file must be a prefix of the serialised stream holding at least the last acknowledged count; after every work() call the file holds all that was consumed (pieces of 1 byte to 64 KiB); a sink on /dev/full (every write fails) must consume nothing, a sink whose write is cut short by the file size limit must not have consumed more than the file holds, two sinks appending alternately to one file must leave every piece in call order, and a sink on a FIFO that accepts one pipe buffer and then stalls must not have acknowledged more than the device accepted while its work() call is blocked; distinct = (acknowledged, bytes on disk) pairs".into();
     rep.assume("durability means 'in the file as seen after SIGKILL' (page cache), not power-loss durability");
     rep.exhaustive = Some(false);
     if opts.shard == 0 {
